@@ -86,7 +86,7 @@ def shift_param(p, k):
 def main(tier, seed):
     res = Result(PID, tier, seed)
     try:
-        translate.run_all()
+        translate.run_all(PID)
     except translate.AnchorLost as e:
         res.violation("translator lost its anchor: %s" % e, {"theorem_or_correspondence": "tools/translate.py gen_consts"}, found_input=False)
     pr = coq_prove(PID)
@@ -139,6 +139,19 @@ def main(tier, seed):
             pops.append(insts)
             if mode == "near1000":
                 shape_hist["near_1000"] += 1
+        if k % 6 == 5:
+            # twin append: a file appended to itself in which every reference carries the same number, so the
+            # last reference resolved before the append and the first one of the appended file are written alike
+            g = popgen.Gen(r, fancy=False)
+            nfiles = r.choice([2, 3])
+            base = r.choice([1, 7, 995])
+            def twin():
+                return [{"id": base, "complex": False, "parts": [("ITEM", [("str", "a")])], "toks": ["ITEM", "(", "'a'", ")"]},
+                        {"id": base + 1, "complex": False,
+                         "parts": [("OWNER", [("str", "o"), ("list", [("ref", base)]), ("ref", base)])],
+                         "toks": ["OWNER", "(", "'o'", ",", "(", "#%d" % base, ")", ",", "#%d" % base, ")"]}]
+            pops = [twin() for _ in range(nfiles)]
+            shape_hist["twin"] = shape_hist.get("twin", 0) + 1
         shape_hist["three_files" if nfiles == 3 else "two_files"] += 1
         if set(i["id"] for i in pops[0]) & set(i["id"] for i in pops[1]):
             shape_hist["identical_ids"] += 1
